@@ -25,7 +25,9 @@ func Spec() *run.Spec {
 			"r1<r2, r1=r2, r1>r2, steep cones, slabs/rods, zero/large rounding …) evaluated at ~2 000 points: uniform around the solid, near-surface, far, " +
 			"on the surface (bisection of the reference), and at the places where the closed forms switch branch (face planes, cap planes, axis, tangent cones) " +
 			"plus ~1 000 point pairs (random, near |p-q|≈1e-3…1e-6, straddling every branch border). An operator case is a random expression tree of " +
-			"Union/Intersect/Subtract/Translate (arity 1…4, depth ≤ 3) over 2–4 primitives. Checked: sign against independent membership, zero on the surface, " +
+			"Union/Intersect/Subtract/Translate (arity 1…6, depth ≤ 3) over 3–6 primitives, placed so that the world origin is strictly inside or outside the composite, and instantiated afresh six times: " +
+			"each fresh function is first sampled at a special point (exactly (0,0,0), -0 components, an operand centre, the previous function's last sample, the local origin of a ≥3-operand node) " +
+			"and then probed for call-history dependence (same point twice, A,B,A,B, first probe again; a repeated point must get the identical answer); primitives and VarryingThicknessLine get the same first-probe/history script. Checked: sign against independent membership, zero on the surface, " +
 			"Euclidean value for sphere/box/capsule/plane, |f(p)-f(q)| ≤ |p-q|, operator sign = set operation of operand signs, Translate(f,t)(p)=f(p-t). " +
 			"Non-trivial: the case saw decided points on both sides of the surface, surface points and branch-straddling pairs (operators: points inside and outside the composite). " +
 			"Distinct = distinct (kind, parameter regime) resp. operator-tree shapes.",
@@ -41,6 +43,8 @@ func Spec() *run.Spec {
 			"lipschitz_pairs_random": 200000, "lipschitz_pairs_near": 200000, "lipschitz_pairs_straddling": 200000,
 			"operator_node_checks": 200000, "translate_checks": 50000, "composite_points_inside": 20000, "composite_points_outside": 20000,
 			"varying_line_points": 20000, "primitive_kinds": 7, "operators": 5, "parameter_regimes": 25,
+			"first_probes_strictly_inside": 1500, "first_probes_strictly_outside": 1500, "first_probe_kinds": 7,
+			"operator_repeated_point_answers": 30000, "primitive_repeated_point_answers": 30000, "operator_arities": 14, "operator_origin_placement": 2,
 		},
 		Phases: []run.Phase{
 			{Name: "primitives", Cases: func(tier string) int {
@@ -266,6 +270,17 @@ func primitiveCase(c *run.Ctx) run.Result {
 	kind := primKinds[c.Case%len(primKinds)]
 	L := logU(r, -2, 2)
 	s := genShape(r, kind, L)
+	if r.Intn(10) < 4 {
+		// move the solid so that the world origin is a decided point of interest
+		// (strictly inside, strictly outside, near the surface, on a branch border)
+		for try := 0; try < 20; try++ {
+			q, _ := samplePoint(r, s)
+			if math.Abs(s.margin(q)) > 1e-6*math.Max(1, math.Max(s.mag(), q.maxAbs())) {
+				s = relocate(s, s.centre().sub(q))
+				break
+			}
+		}
+	}
 	f, site := polyform(s)
 	c.Note(fmt.Sprintf("%s %v", site, s.params()))
 	if p := run.Try(func() { checkPrimitive(r, &res, s, f, site) }); p != nil {
@@ -296,11 +311,62 @@ func checkPrimitive(r *rand.Rand, res *run.Result, s shape, f sample.Vec3ToFloat
 	const nPts = 1600
 	pts := make([]v3, 0, nPts)
 	vals := make([]float64, 0, nPts)
+	// The function is freshly built and has never been sampled. Its very first
+	// sample is a special point (the world origin most often), and the script
+	// around the random samples repeats points: a function of p cannot depend on
+	// what was asked before.
+	var p0 v3
+	fpKind := "origin"
+	switch pick(r, []int{50, 15, 15, 20}) {
+	case 1:
+		p0 = v3{negZero(), 0, 0}
+		if r.Intn(2) == 0 {
+			p0 = v3{negZero(), negZero(), negZero()}
+		}
+		fpKind = "negative-zero"
+	case 2:
+		p0, fpKind = s.centre(), "centre"
+	case 3:
+		p0, fpKind = s.special(r), "branch-border"
+	}
+	res.SetAdd("first_probe_kinds", fpKind)
+	pa, _ := samplePoint(r, s)
+	pb, _ := samplePoint(r, s)
+	head := []v3{p0, p0, pa, pa, pb, pa, pb, p0, {}, p0}
+	tail := []v3{pa, pb, {}, p0}
+	seen := map[pkey]float64{}
 	for i := 0; i < nPts; i++ {
-		p, class := samplePoint(r, s)
+		p, class := v3{}, ""
+		switch {
+		case i == 0:
+			p, class = p0, "first-probe:"+fpKind
+		case i < len(head):
+			p, class = head[i], "call-history"
+		case i >= nPts-len(tail):
+			p, class = tail[i-(nPts-len(tail))], "call-history"
+		default:
+			p, class = samplePoint(r, s)
+		}
 		v, ok := eval(p)
 		if !ok {
 			return
+		}
+		if old, dup := seen[keyOf(p)]; dup {
+			res.Count("primitive_repeated_point_answers", 1)
+			if old != v {
+				res.Violate("history-dependent", site, kind, fmt.Sprintf("f(%v) answered %.17g earlier and %.17g now [%s]", p, old, v, class),
+					pointWitness{Shape: kind, Params: s.params(), P: p, Got: v, Want: old, Class: class})
+				return
+			}
+		} else {
+			seen[keyOf(p)] = v
+		}
+		if i == 0 {
+			if m := s.margin(p); m < -1e-9*math.Max(base, p.maxAbs()) {
+				res.Count("first_probes_strictly_inside", 1)
+			} else if m > 1e-9*math.Max(base, p.maxAbs()) {
+				res.Count("first_probes_strictly_outside", 1)
+			}
 		}
 		pts = append(pts, p)
 		vals = append(vals, v)
@@ -427,10 +493,16 @@ func checkPrimitive(r *rand.Rand, res *run.Result, s shape, f sample.Vec3ToFloat
 			t = v3{}
 		}
 		g := sdf.Translate(f, pv(t))
-		for k := 0; k < 25; k++ {
+		for k := 0; k < 27; k++ {
 			q := pts[r.Intn(len(pts))] // a point of interest of the original solid
 			p := q.add(t)              // … seen from the moved solid
-			moved := p.sub(t)          // what the moved solid must be evaluated at
+			switch k {
+			case 0:
+				p = v3{} // first sample of the fresh closure: the world origin
+			case 1:
+				p = t // … then the point the inner function sees as its origin
+			}
+			moved := p.sub(t) // what the moved solid must be evaluated at
 			v := g(pv(p))
 			want := f(pv(moved))
 			tol := 1e-9 * math.Max(base, math.Max(p.maxAbs(), t.maxAbs()))
